@@ -54,7 +54,12 @@ Walk(k, st, cl, ocl) ==
      IF Tr.fresh.present
        THEN LET fr == Ver3(ObsCh(Tr.fresh), 3)
                 fs == Full(x, Ord, st)
-            IN IF ~(fr.values = fs.values /\ fr.visible = fs.visible /\ fr.ranges = fs.ranges)
+                Tri(F) == [j \in 1..Len(F) |-> <<F[j].n, F[j].v, F[j].d>>]
+                \* every file of the session holds what the specification's saves put there (which file a
+                \* `save: null` goes to is part of the protocol: the last used one)
+                wrong == {j \in 1..Len(Tr.disk) : Tri(st.files[j]) # Tr.disk[j]}
+            IN IF wrong # {} THEN LET j == CHOOSE j \in wrong : TRUE IN <<"R-SavedWhere", j, Tri(st.files[j]), Tr.disk[j]>>
+               ELSE IF ~(fr.values = fs.values /\ fr.visible = fs.visible /\ fr.ranges = fs.ranges)
                  THEN <<"R-SaveFaithful", k, fs, fr>>
                ELSE IF ~(Tr.fresh.visible = ocl.visible
                          /\ (\A n \in DOMAIN Tr.fresh.values : n \in DOMAIN ocl.values /\ ocl.values[n] = Tr.fresh.values[n])
